@@ -168,6 +168,10 @@ struct RustPeer {
 }
 
 async fn connect(variant: Variant, port: u16) -> Option<RustPeer> {
+    connect_as(variant, port, "client_operator").await
+}
+
+async fn connect_as(variant: Variant, port: u16, cert: &str) -> Option<RustPeer> {
     let states = Arc::new(Mutex::new(vec![]));
     let addr = HostAddr::ip(IpAddr::V4(Ipv4Addr::LOCALHOST), port);
     let retry = doubling_retry_strategy(Duration::from_secs(600), Duration::from_secs(600));
@@ -178,8 +182,8 @@ async fn connect(variant: Variant, port: u16) -> Option<RustPeer> {
         let cfg = TlsClientConfig::full_pki(
             Some("test.server".to_string()),
             std::path::Path::new(&fixture("ca1.cert.pem")),
-            std::path::Path::new(&fixture("client_operator.cert.pem")),
-            std::path::Path::new(&fixture("client_operator.key.pem")),
+            std::path::Path::new(&fixture(&format!("{cert}.cert.pem"))),
+            std::path::Path::new(&fixture(&format!("{cert}.key.pem"))),
             None,
             MinTlsVersion::V1_2,
         )
@@ -202,6 +206,59 @@ async fn connect(variant: Variant, port: u16) -> Option<RustPeer> {
 
 fn param() -> RequestParam {
     RequestParam::new(UnitId::new(1), Duration::from_secs(2))
+}
+
+/// The role the C authorization callbacks are given is the role of the client certificate, whatever it
+/// is. A role that a C string cannot carry (a NUL inside) must not reach the callback as something
+/// else (its prefix): then the only faithful outcomes are "not consulted and denied" or no session.
+fn role_cells(rt: &Rt, trt: &tokio::runtime::Runtime, ev: &mut Evidence) {
+    for (cert, role) in [("client_operator", "operator"), ("client_viewer", "viewer"), ("client_emptyrole", ""), ("client_nulrole", "operator\0x")] {
+        ev.eval();
+        ev.count("authorization_role_cells", 1);
+        let srv = match start(rt, Variant::TlsAuthz, 4, 0xFF) {
+            Ok(s) => s,
+            Err(rc) => {
+                ev.inconclusive(format!("rodbus_server_create_tls_with_authz returned {rc}"));
+                continue;
+            }
+        };
+        let policy = srv.policy.clone().unwrap();
+        let port = srv.port;
+        let results = trt.block_on(async {
+            let p = connect_as(Variant::TlsAuthz, port, cert).await?;
+            let ch = &p.channel;
+            let a = ch.read_holding_registers(param(), AddressRange::try_from(0, 2).unwrap()).await.map(|_| ());
+            let b = ch.write_single_register(param(), Indexed::new(5, 0x1234)).await.map(|_| ());
+            let _ = ch.shutdown().await;
+            Some((a, b))
+        });
+        let log = policy.log.lock().unwrap().clone();
+        unsafe { ffi::rodbus_server_destroy(srv.server) };
+        let seen: Vec<String> = log.iter().map(|l| l.4.clone()).collect();
+        let representable = !role.contains('\0');
+        ev.class(format!("authz_role|{cert}|callbacks={}|{}", seen.len(), match &results { None => "no_session".to_string(), Some((a, b)) => format!("{}/{}", if a.is_ok() { "ok" } else { "err" }, if b.is_ok() { "ok" } else { "err" }) }));
+        let rep = json!({"certificate": cert, "role": role});
+        if let Some(other) = seen.iter().find(|r| r.as_str() != role) {
+            ev.violation(
+                format!("authz_role:{cert}:callback_saw_other_role"),
+                format!("client certificate {cert} carries the role {role:?}; the C authorization callback was given {other:?}"),
+                rep.clone(),
+            );
+        }
+        match (&results, representable) {
+            (Some((Ok(()), Ok(()))), true) if seen.len() == 2 => {}
+            (_, true) => {
+                ev.violation(format!("authz_role:{cert}:not_served"), format!("certificate {cert} (role {role:?}), handler allowing everything: results {results:?}, callbacks saw {seen:?}"), rep.clone());
+            }
+            (Some((a, b)), false) => {
+                let denied = |r: &Result<(), RequestError>| matches!(r, Err(RequestError::Exception(rodbus::ExceptionCode::IllegalFunction)));
+                if !(seen.is_empty() && denied(a) && denied(b)) && !seen.iter().all(|r| r == role) {
+                    ev.violation(format!("authz_role:{cert}:unrepresentable_role_not_denied"), format!("certificate {cert} (role {role:?} cannot be passed as a C string): results {a:?} / {b:?}, callbacks saw {seen:?}"), rep.clone());
+                }
+            }
+            (None, false) => {}
+        }
+    }
 }
 
 /// `max_sessions` reaches the library unchanged through each constructor
@@ -336,4 +393,5 @@ fn authorization_cells(rt: &Rt, trt: &tokio::runtime::Runtime, ev: &mut Evidence
 pub fn run(rt: &Rt, trt: &tokio::runtime::Runtime, ev: &mut Evidence) {
     max_sessions_cells(rt, trt, ev);
     authorization_cells(rt, trt, ev);
+    role_cells(rt, trt, ev);
 }
